@@ -73,7 +73,7 @@ CHECKS.append(check(
 CHECKS.append(check(
     "C09", "csim", "exploration",
     "Same simulator. One run = one (stream, delivery schedule) executed on a base variant (ASan build with this CPU's SIMD paths, zeroed object memory, default initialize flags) and on 3-5 drawn variants of the cross product {ASan, -O2} x {SIMD paths, WUFFS_CONFIG__AVOID_CPU_ARCH} x object memory pre-fill {zeroes, 0xFF, noise} x initialize flags {default, ALREADY_ZEROED on zeroed memory, LEAVE_INTERNAL_BUFFERS_UNINITIALIZED} x {fresh object, memory that just held a decode of another stream} x destination-beyond-wi pre-fill; the portable twin of the base is always included. The schedule comes from a sub-tape seeded by one draw, so every variant sees the same decisions. Oracle: identical initialize status, final status, output bytes, consumed count and per-call record fingerprint.",
-    CSIM_NOTE + " One run in three replays one image file and one delivery schedule across the same variant space for the twelve image decoders (image config, frame bounds, per-frame pixel hashes - only under the base pixel pre-fill -, final status, consumed count). The documented JPEG exception is honoured: a DAMAGED jpeg is not compared across CPU paths (counted as variant_skipped_jpeg_idct_exception); undamaged ones are.",
+    CSIM_NOTE + " One run in three replays one image file and one delivery schedule across the same variant space for the twelve image decoders (image config, frame bounds, per-frame pixel hashes - only under the base pixel pre-fill -, final status, consumed count). The documented JPEG exception is honoured: a DAMAGED jpeg, or one of the hand-made files under test/data/artificial-jpeg, is not compared across CPU paths (counted as variant_skipped_jpeg_idct_exception); undamaged ones are.",
     "deterministic simulation: one delivery schedule replayed across memory / initialize-flag / CPU-path variants, differential",
     "DESIGN.md section 3 C, section 5 C09"))
 CHECKS.append(check(
